@@ -994,11 +994,11 @@ Proof.
   unfold do_tick.
   match goal with |- context [let '(h1, o1) := ?X in _] => destruct X as [h1 o1] eqn:H1 end.
   assert (R1 : Rel xs h h1).
-  { destruct (30 <? secs); [|injection H1 as <- <-; apply rel_refl].
+  { destruct (hub_expire_s <? secs); [|injection H1 as <- <-; apply rel_refl].
     rewrite (fst_eq _ _ _ H1). apply rel_fold_sessions; [apply rel_refl|]. intros. apply rel_close_session. }
   match goal with |- context [let '(h2, o2) := ?X in _] => destruct X as [h2 o2] eqn:H2 end.
   assert (R2 : Rel xs h h2).
-  { destruct (10 <? secs); [|injection H2 as <- <-; exact R1].
+  { destruct (hub_anonymous_s <? secs); [|injection H2 as <- <-; exact R1].
     rewrite (fst_eq _ _ _ H2). apply rel_fold_sessions; [exact R1|]. intros hh sid.
     destruct (get_sess hh sid) as [s|]; [|apply rel_refl].
     match goal with |- context [let '(h3, o3) := ?X in _] => destruct X as [h3 o3] eqn:H3 end.
@@ -1007,7 +1007,7 @@ Proof.
     destruct (close_session h3 sid) as [h4 o4] eqn:H4. cbn [fst]. rewrite (fst_eq _ _ _ H4).
     eapply rel_trans; [exact R3|apply rel_close_session]. }
   match goal with |- context [let '(h3, o3) := ?X in _] => destruct X as [h3 o3] eqn:H3 end.
-  cbn [fst]. destruct (2 <? secs); [|injection H3 as <- <-; exact R2].
+  cbn [fst]. destruct (hub_hello_s <? secs); [|injection H3 as <- <-; exact R2].
   rewrite (fst_eq _ _ _ H3). apply rel_fold_sessions; [exact R2|]. intros. apply rel_send_conn.
 Qed.
 
